@@ -68,6 +68,7 @@ fn real_main(args: &[String]) -> i32 {
         }
         "c19-worker" => c19::driver::worker_main(rest),
         "c19-exec" => c19::driver::exec_main(rest),
+        "c19-crash" => c19::crash_child_main(rest),
         "c14-worker" => c14::driver::worker_main(rest),
         "c14-exec" => c14::driver::exec_main(rest),
         "c14-anchor" => c14::anchors::anchor_main(rest),
